@@ -54,6 +54,8 @@ var c14Features = []string{
 	"x = nil ?? 5\ny = (zz_undefined ?? 6)\nz = true ? 1 : 2\nrd(\"x\", [x, y, z])",
 	"a = \"abc\"\nrd(\"s\", a[1:])\nrd(\"c\", a[0])\nb = [1, 2, 3, 4]\nrd(\"b\", b[1:3])\nrd(\"in\", 2 in b)\nrd(\"len\", len(b))",
 	"p1 = new(int64)\n*p1 = 5\nrd(\"p\", *p1)\nx = 1\nq = &x\nrd(\"q\", *q)",
+	"p1 = &(2 + 3)\n*p1 = *p1 + 1\nrd(\"p\", *p1)\nrd(\"five\", 2 + 3)\nn = &len([1, 2, 3])\n*n = 1000\nrd(\"len\", len([7, 8, 9]))",
+	"x = 7\nq = &(-x)\n*q = 99\nrd(\"neg\", -x)\nr = &(x * 1)\n*r = 55\nrd(\"x\", [x, x * 1, 6 + 1])\ny = 10\nz = &(y++)\n*z = 0\nrd(\"y\", [y, 10 + 1])",
 	"func fib(n) { if n < 2 { return n }\n return fib(n - 1) + fib(n - 2) }\nrd(\"fib\", fib(12))",
 	"func mk(s) { var c = s\n return func() { c++\n return c } }\na = mk(10)\nb = mk(20)\nrd(\"r\", [a(), b(), a(), a(), b()])",
 	"delete(\"zz\")\nm = {\"a\": 1, \"b\": 2}\ndelete(m, \"a\")\nrd(\"m\", m)\nrd(\"k\", len(keys(m)))",
@@ -142,7 +144,20 @@ func c14Canary(c *wk.Case, when string) {
 	if o := ank.Exec(e, "x = 1; x++; x"); ank.Render(o.Val) != "int64(2)" {
 		c.Violation("canary:one-literal", "after "+when+": `x = 1; x++; x` yields "+ank.Render(o.Val)+" (the shared literal behind ++ changed)", when)
 	}
-	for _, i := range []int64{-1, 0, 1, 2, 100, 4094, 4095} {
+	probe := []int64{-1, 0, 1, 2, 3, 5, 6, 7, 11, 55, 99, 100, 1000, 4094, 4095}
+	c14CanaryCount++
+	if c14CanaryCount%20 == 1 {
+		// the complete cache range every 20th case
+		probe = probe[:0]
+		for i := int64(-1); i <= 4096; i++ {
+			probe = append(probe, i)
+		}
+	} else {
+		for k := 0; k < 24; k++ {
+			probe = append(probe, int64(c.Rng.Intn(4097))-1)
+		}
+	}
+	for _, i := range probe {
 		e.Define("i", i)
 		if o := ank.Exec(e, "i + 0"); ank.Render(o.Val) != fmt.Sprintf("int64(%d)", i) {
 			c.Violation("canary:small-int-cache", fmt.Sprintf("after %s: %d + 0 yields %s", when, i, ank.Render(o.Val)), when)
@@ -163,7 +178,7 @@ func c14Canary(c *wk.Case, when string) {
 	}
 }
 
-var c14PackagesBaseline int
+var c14PackagesBaseline, c14CanaryCount int
 
 func init() {
 	wk.Register(&wk.Engine{
